@@ -21,7 +21,8 @@ import (
 //   ; r                                    restart that re-uses the application's vecfc index object (R creates a fresh one)
 //   ; L mode n [flags]                     (header group) ApplyEvent listener policy: 0 every block, 1 from block n on, 2 odd blocks,
 //                                          3 no BeginBlock callback at all; flags 1: nil EndBlock on non-sealing blocks, 2: one-byte vector caches,
-//                                          4: index over a custom vecengine.Engine with Callbacks.OnDropNotFlushed nil (vector caches off)
+//                                          4: index over a custom vecengine.Engine with Callbacks.OnDropNotFlushed nil (vector caches off),
+//                                          8: production-size vector caches, 16: name-keyed persistent epoch DB producer
 //   ; W                                    Store.GetValidators (ids and weights in canonical order)
 //   ; Q i j                                ForklessCause(event i, event j) asked of the instance's index
 //   ; Y n ep cr seq lam frame p..          Process of an inline "ghost" event (id tail n) that is defined nowhere else
